@@ -21,7 +21,14 @@ fn run<F: FnOnce()>(name: &str, f: F) {
         println!("!!! PANIC: {msg}");
     }
 }
+mod kani_replay;
 fn main() {
+    let args: Vec<String> = std::env::args().collect();
+    if args.len() >= 3 && args[1] == "kani" {
+        // wirm-replay kani <harness> <v1,v2,..> <v1,..> ...   (decimal bytes of each kani::any value, in draw order)
+        let vals: Vec<Vec<u8>> = args[3..].iter().map(|a| a.split(',').filter(|x| !x.is_empty()).map(|x| x.parse::<u8>().unwrap()).collect()).collect();
+        std::process::exit(kani_replay::run(&args[2], vals));
+    }
     std::panic::set_hook(Box::new(|_| {}));
     run("S2 add import then delete it", || {
         let w = wat::parse_str(r#"(module (func $a) (func $b call $a) (export "b" (func $b)) (export "a" (func $a)))"#).unwrap();
